@@ -69,6 +69,10 @@ template<class T> static void nary(T a, T b, T c, T d, const char* tn)
 	  bool ok = samev(glm::step(a, b), w); for (int k = 0; k < 4; ++k) { ok = ok && samev(r1[k], (T)(x4[k] < a ? 0 : 1)) && samev(r2[k], (T)(x4[k] < e4[k] ? 0 : 1)); }
 	  if (!ok) tfail("step" + sfx, (a != a || b != b || c != c || d != d) ? "NaN operand: x < edge is false" : "value", in, fs(w), fs(glm::step(a, b))); }
 	if (a != a || b != b || c != c || d != d) return;
+	// gtx/common: openBounded = strictly inside (lo, hi), closeBounded = inside [lo, hi], per component; isdenormal = non-zero with a zero exponent field
+	{ glm::vec<2, T> v2(a, b), lo2(c, c), hi2(d, d); auto ob = glm::openBounded(v2, lo2, hi2), cb = glm::closeBounded(v2, lo2, hi2);
+	  bool ok = ob.x == (c < a && a < d) && ob.y == (c < b && b < d) && cb.x == (c <= a && a <= d) && cb.y == (c <= b && b <= d) && glm::isdenormal(a) == (a != 0 && std::fabs(a) < std::numeric_limits<T>::min());
+	  if (!ok) tfail("gtx_common" + sfx, "openBounded / closeBounded / isdenormal", in, "", ""); }
 	if (!samev(glm::min(a, b), b < a ? b : a) || !samev(glm::max(a, b), a < b ? b : a)) tfail("min/max" + sfx, "value", in, "", "");
 #if !(GLM_ARCH & GLM_ARCH_SIMD_BIT)
 	// the GLSL definitions literally: min(x, y) = y < x ? y : x and max(x, y) = x < y ? y : x -- equal operands (+0 and -0) return x, bit for bit
